@@ -73,6 +73,14 @@ CLAIM = dict(
           "edits one of them. Trees are judged on their documented structure (a child that is an instance of RoutingTree "
           "or of any subclass continues the route, anything else is a vertex). build_routing_tables (deprecated, "
           "place_and_route/utils.py) is not part of this property's anchors and is not exercised. "
+          "A table is a list: 35% of the generated tables of two or more entries (single-load, lossy, scale and "
+          "session streams, through load_routing_table_entries and through load_routing_tables) repeat an entry exactly "
+          "(adjacent, far apart, several times) or repeat its key and mask with another route, and sessions insert copies "
+          "of entries already present; LoadSpec demands every one of them, in order. Disagreements between the simulated "
+          "router and the Lean router specification (replies, final state, state after an unanswered allocation - the "
+          "block length is taken from the request that was sent) depend on what the implementation sends, so they are "
+          "reported as a broken correspondence (c10.simulator) and the case is still judged; the harness raises no "
+          "infrastructure error of its own (only the shared driver does, when the Lean process fails). "
           "HARDENING (what is validated by which stream; every verdict comes from the Lean oracles TablesSpec / LoadSpec / "
           "TablesLoadSpec / ReadbackSpec or from the comparison with the Lean model): "
           "[1 argument kinds] forest stream, option ak (35% of forests) and the decorations (40%): net identifiers as "
@@ -159,7 +167,8 @@ RULE = ("pure cases = forests of 1-6 nets on a 4x4 torus: random branching trees
         "class that is also called RoutingTree); in 15% the caller first edits the tables it was handed (sources sets, "
         "lists, dict) and converts the same trees again, the second result is judged; machine cases = tables of 0..1024 entries (sizes 0,1,2,3,"
         "16,17,64,1023,1024 and random) over all 24 route bits with full-width keys/masks, 1-3 chips, app ids 0..255, scp "
-        "buffer sizes 16..512, random router free-list states (fragmented, full, empty) and allocation policies (first "
+        "buffer sizes 16..512, 35% of the tables of >= 2 entries with exactly repeated entries or a repeated key/mask "
+        "with another route, random router free-list states (fragmented, full, empty) and allocation policies (first "
         "fit, last fit, random fit, refuse), 0-2 bystander chips that have a router state but no table, followed by a full "
         "read-back and optionally a clear; lossy stream = the same with the first one or two transmissions of a chip's "
         "alloc_rtr request or of its reply lost (the chip then executes the allocation twice); sessions = 2-5 loads through "
@@ -1232,6 +1241,17 @@ def gen_entries(rng, n):
         k = rng.choice([0, 0xffffffff, 0x80000000, rng.randrange(1 << 32), rng.randrange(1 << 32)])
         m = rng.choice([0, 0xffffffff, 0xffff0000, rng.randrange(1 << 32), rng.randrange(1 << 32)])
         es.append([route, k, m])
+    if n >= 2 and rng.random() < 0.35:
+        # the same entry more than once (adjacent, far apart, three times), entries with the key and mask of another but
+        # a different route, in any position: a table is a list - the router gets every one of them, in order
+        for _ in range(rng.choice([1, 1, 2, 3])):
+            i, j = rng.randrange(n), rng.randrange(n)
+            if rng.random() < 0.65:
+                es[j] = [list(es[i][0]), es[i][1], es[i][2]]
+            else:
+                es[j] = [es[j][0], es[i][1], es[i][2]]
+            if rng.random() < 0.3 and i + 1 < n:
+                es[i + 1] = [list(es[i][0]), es[i][1], es[i][2]]
     return es
 
 
@@ -1631,10 +1651,11 @@ def prepare_from(case, full, res, sv, label="", model_get=True):
     for i, p in enumerate(res["pairs"]):
         xy = tuple(p["req"][:2])
         if p["req"][3] in (28, 29, 3):
-            d = reached.setdefault(xy, {"base": None, "wrote": False, "lost": [], "last_lost": None})
+            d = reached.setdefault(xy, {"base": None, "wrote": False, "lost": [], "lost_n": [], "last_lost": None})
             if p["req"][3] == 28 and (p["req"][4] & 0xff) == 3:
                 if p["lost"]:
                     d["lost"].append(p["arg1"])
+                    d["lost_n"].append(p["req"][5])          # the number of rows that request asked for
                     d["last_lost"] = i
                 elif d["base"] is None:
                     d["base"] = p["arg1"]
@@ -1648,8 +1669,9 @@ def prepare_from(case, full, res, sv, label="", model_get=True):
     for xy, d in reached.items():
         if d["lost"]:
             rows = res["rows0"][xy]
-            for b in d["lost"]:
-                rows = claim_rows(rows, b, n_of.get(xy, 0), full["app"])
+            for b, n_asked in zip(d["lost"], d["lost_n"]):
+                # (the block is as long as the request said, whatever the table handed to the call)
+                rows = claim_rows(rows, b, n_asked, full["app"])
             rows_before[xy] = rows
             mid_idx[xy] = len(reqs)
             reqs.append({"suite": "c10", "op": "replay", "chips": [c for c in chips0 if tuple(c["chip"]) == xy],
@@ -1698,24 +1720,35 @@ def judge_load(ctx, st, out, count=True):
     chip_list, rb_list, raised, reached = st["chip_list"], st["rb_list"], st["raised"], st["reached"]
     ctx.traces += 1
     # ---- simulator against the Lean router specification ----------------------------------------
+    # What the simulator answers and ends up holding depends on the commands the implementation chose to send (and on
+    # memory it left unwritten), so a disagreement here is never an infrastructure error: it is reported as a broken
+    # correspondence, the run goes on and the oracles below still judge the case.
     rp = out[0]
     if rp.get("disagree"):
-        raise Infra("simulated router disagrees with the Lean specification: %s (case %r)" % (rp["disagree"], case))
+        ctx.mismatch("c10.simulator", label + "simulated router disagrees with the Lean specification: %s" % (rp["disagree"],), case)
     spec_final = {tuple(c): rows for c, rows in rp["final"]}
     for xy, i in st["mid_idx"].items():
         mid = out[i]
         if mid.get("disagree"):
-            raise Infra("simulated router disagrees with the Lean specification: %s (case %r)" % (mid["disagree"], case))
-        if dict((tuple(c), rows) for c, rows in mid["final"]).get(xy, []) != st["rows_before"][xy]:
-            raise Infra("router state after the unanswered allocation differs from the Lean specification "
-                        "(chip %r, case %r)" % (xy, case))
-    for xy in chip_list + st["bystanders"]:
-        want = res["rows2"] if (full["clear"] and xy == chip_list[0]) else res["rows1"][xy]
-        if spec_final.get(xy, []) != want:
-            raise Infra("simulated router state differs from the Lean specification after the same commands "
-                        "(chip %r, case %r)" % (xy, case))
+            ctx.mismatch("c10.simulator", label + "simulated router disagrees with the Lean specification: %s" % (mid["disagree"],), case)
+        elif dict((tuple(c), rows) for c, rows in mid["final"]).get(xy, []) != st["rows_before"][xy]:
+            ctx.mismatch("c10.simulator", label + "router state of chip %r after the unanswered allocation differs from the "
+                         "Lean specification" % (xy,), case)
+    if not rp.get("disagree"):
+        for xy in chip_list + st["bystanders"]:
+            want = res["rows2"] if (full["clear"] and xy == chip_list[0]) else res["rows1"][xy]
+            if spec_final.get(xy, []) != want:
+                ctx.mismatch("c10.simulator", label + "simulated router state of chip %r differs from the Lean specification "
+                             "after the same commands" % (xy,), case)
+                break
     for t in res.get("ak_used", []):
         ctx.tag(t)
+    for _, es in full["tables"]:
+        ids = [(tuple(r), k, m) for r, k, m in es]
+        if len(set(ids)) < len(ids):
+            ctx.tag("table_with_repeated_entry_via_" + full["via"])
+        if len({(k, m) for _, k, m in ids}) < len(set(ids)):
+            ctx.tag("table_with_same_key_mask_other_route")
     flt = res.get("fault")
     out_kind = res["outcome"] if isinstance(res["outcome"], str) else res["outcome"][0]
     if flt and flt["hit"]:
@@ -1856,8 +1889,7 @@ def judge_load(ctx, st, out, count=True):
                          "error naming that chip / normal return iff none refused)", case)
     # ---- retransmitted allocations (resource observation, not part of the property) -------------------
     for xy, d in reached.items():
-        for b in d["lost"]:
-            n = st["n_of"].get(xy, 0)
+        for b, n in zip(d["lost"], d["lost_n"]):
             stats = ctx.extra.setdefault("retransmitted_alloc", {"replies_lost": 0, "blocks_leaked": 0, "rows_leaked": 0,
                                                                    "then_refused": 0})
             stats["replies_lost"] += 1
@@ -1995,9 +2027,14 @@ def gen_session(rng):
                     cur = content[lid]
                     kinds = ["append", "append", "insert", "extend"] + \
                             (["replace", "replace", "replace", "delete", "delete", "reverse", "swap", "clear",
-                              "edit_sources"] if cur else [])
+                              "edit_sources", "dup", "dup"] if cur else [])
                     m = rng.choice(kinds)
                     mu = {"m": m, "list": lid}
+                    if m == "dup":
+                        # one more copy of an entry that is already in the table, somewhere
+                        mu = {"m": "insert", "list": lid, "i": rng.randrange(len(cur) + 1),
+                              "e": [list(x) if isinstance(x, list) else x for x in rng.choice(cur)]}
+                        m = "inserted_copy"
                     if m in ("replace", "delete", "edit_sources"):
                         mu["i"] = rng.randrange(len(cur))
                     if m == "edit_sources":
